@@ -158,6 +158,27 @@ func (w *World) checkSnapshot(i int, s *snapRec) *Violation {
 	}
 	w.stats.Checks++
 	got := readAllRows(fresh, w.model.Cols)
+	// the restored lookup table is coherent with the restored rows: every key a live row
+	// holds resolves to exactly that row
+	if kc, ok := w.model.KeyCol(); ok {
+		for off, r := range got {
+			kv, has := r[kc.Name]
+			if !has {
+				continue
+			}
+			at, reached := uint32(0), false
+			err := fresh.QueryKey(kv.S, func(r column.Row) error {
+				at, reached = r.Index(), true
+				return nil
+			})
+			if err != nil || !reached || at != off {
+				// (two restored rows holding one key is the known finding of C12 and shows up there)
+				if other, dup := got[at]; !(reached && dup && other[kc.Name].S == kv.S) {
+					return violation("snapshot-cut/key-lookup", "snapshot #%d restored row %d holds key %q but QueryKey reaches (row %d, reached=%v, err=%v)", i, off, kv.S, at, reached, err)
+				}
+			}
+		}
+	}
 	blocks := map[uint32]bool{}
 	for o := range got {
 		blocks[o>>14] = true
